@@ -36,6 +36,12 @@ CHECKS = {
   text='Every call of fpy2.ops add, sub, mul, div, fma, sqrt, cbrt, hypot, fmod, remainder, mod, pow (integer exponent), ceil, floor, trunc, roundint, nearbyint, neg, fabs, copysign, fdim is observed by a post-condition: the exact result is computed on the operands\' denotations with Fractions (roots by integer power comparison, special cases from the IEEE 754 tables), rounded once by the independent rounding oracle, and compared with the returned value, sign of zero and inexact/overflow/invalid/divzero flags; under REAL the exact value itself is required. Operands come from a source format wider than the narrow target contexts (all pairs in thorough, sampled pairs in quick; fma triples sampled plus cancellation-heavy triples), so exact results sit within one sticky bit of target breakpoints. Thorough also runs the C01 round monitor on every intermediate rounding.',
   ref='DESIGN.md 1.1, 1.4, 2/C02',
   note='Trusted: Fraction arithmetic, vf/oracle/arith.py tables, vf/oracle/rnd.py. Open by the property or by lack of a specification: sign of an exact-cancellation zero under RTN, sign of a zero result of Python-style mod, sign of NaN. NotImplementedError accepted for non-dyadic operands and under REAL.'),
+ 'C03': dict(
+  technique='runtime post-condition monitor on the transcendental functions/constants of fpy2.ops vs an MPFR enclosure oracle at growing precision (Ziv) + independent rounding oracle',
+  category='exploration',
+  text='Every call of exp, exp2, exp10, expm1, log, log2, log10, log1p, sin, cos, tan, asin, acos, atan, atan2, sinh, cosh, tanh, asinh, acosh, atanh, erf, erfc, tgamma, lgamma, pow (non-integer exponents) and of the 12 named constants is observed: the true value is enclosed by MPFR at working precision 96, 192, ... <= 16384 bits until it is separated from the format\'s breakpoints, then rounded once by the independent oracle; exactly rational results (exp 0, log 1, log2 of powers of two, pow with rational result, gamma of integers, ...) are recognised by exact tests and must come back unflagged. Workload: constants x every precision 1..130 (quick) / 1..400 (thorough) x 8 modes x float, subnormal and fixed-point targets; functions x all operands of small source formats (plus large-argument cases for bounded functions) x target precisions 1..6 / 1..12 and 24, 53, (64, 113, 200, 300) x modes x subnormal / fixed-point targets; the cases that needed the most enclosure bits are re-run under all 8 modes.',
+  ref='DESIGN.md 1.3, 2/C03',
+  note='Trusted: MPFR correct rounding of a single call and its IEEE special-case tables; vf/oracle/rnd.py. Cases whose separation needs more than 16384 bits or whose value leaves the MPFR exponent range are counted inconclusive (run is inconclusive above 5%).'),
 }
 
 NOT_YET = {}
